@@ -678,41 +678,47 @@ def _proc_pred(fn):
     return tree(loop.body, "acc"), final
 
 
-def _handler_tree(stmts, names, ind):
-    """statements of an `except queue.Empty` handler -> an `Act` decision tree (exit1 / exit0 / cont / fall)"""
-    pad = " " * ind
+def _handler_prog(stmts, names):
+    """statements of an `except queue.Empty` handler -> a `Prog` term: every call of a process predicate is one poll, `and` / `or` /
+    `not` are short-circuit evaluation (nested polls in source order), the leaves are exit1 / exit0 / cont / brk / fall"""
     if not stmts:
-        return pad + ".fall"
+        return "(.leaf .fall)"
     st, rest = stmts[0], stmts[1:]
     if isinstance(st, ast.Continue):
-        return pad + ".cont"
+        return "(.leaf .cont)"
     if isinstance(st, ast.Break):
-        return pad + ".brk"
+        return "(.leaf .brk)"
     if isinstance(st, ast.Pass):
-        return _handler_tree(rest, names, ind)
+        return _handler_prog(rest, names)
     if isinstance(st, ast.Expr) and isinstance(st.value, ast.Call):
         u = ast.unparse(st.value.func)
         if u in ("sys.exit", "exit", "os._exit"):
             a = st.value.args
             zero = (not a) or (isinstance(a[0], ast.Constant) and a[0].value in (0, None))
-            return pad + (".exit0" if zero else ".exit1")
+            return "(.leaf .exit0)" if zero else "(.leaf .exit1)"
         if u.startswith("logger.") or u.startswith("logging.") or u == "stop_all" or u == "print":
-            return _handler_tree(rest, names, ind)
+            return _handler_prog(rest, names)
         raise Untranslatable("handler calls %s" % u)
     if isinstance(st, ast.Raise):
-        return pad + ".exit1"
+        return "(.leaf .exit1)"
     if isinstance(st, ast.If):
-        def test(e):
+        def cond(e, yes, no):
             if isinstance(e, ast.UnaryOp) and isinstance(e.op, ast.Not):
-                return "(!%s)" % test(e.operand)
-            if isinstance(e, ast.BoolOp):
-                return "(" + (" && " if isinstance(e.op, ast.And) else " || ").join(test(x) for x in e.values) + ")"
-            if isinstance(e, ast.Call) and isinstance(e.func, ast.Name) and e.func.id in names and ast.unparse(e.args[0]) == "processes" and len(e.args) == 1:
-                return names[e.func.id]
+                return cond(e.operand, no, yes)
+            if isinstance(e, ast.BoolOp) and isinstance(e.op, ast.And):
+                out = yes
+                for x in reversed(e.values):
+                    out = cond(x, out, no)
+                return out
+            if isinstance(e, ast.BoolOp) and isinstance(e.op, ast.Or):
+                out = no
+                for x in reversed(e.values):
+                    out = cond(x, yes, out)
+                return out
+            if isinstance(e, ast.Call) and isinstance(e.func, ast.Name) and e.func.id in names and len(e.args) == 1 and ast.unparse(e.args[0]) == "processes":
+                return "(.test %s %s %s)" % (names[e.func.id], yes, no)
             raise Untranslatable("handler tests %s" % ast.unparse(e))
-        then = _handler_tree(st.body + rest, names, ind + 2)
-        els = _handler_tree(st.orelse + rest, names, ind + 2)
-        return "%sif %s then\n%s\n%selse\n%s" % (pad, test(st.test), then, pad, els)
+        return cond(st.test, _handler_prog(st.body + rest, names), _handler_prog(st.orelse + rest, names))
     raise Untranslatable("handler statement %s" % ast.unparse(st)[:80])
 
 
@@ -728,7 +734,7 @@ def gen_collector():
     loops.sort(key=lambda n: n.lineno)
     if len(loops) != 2:
         raise Untranslatable("realign_gaf has %d collector loops, expected 2" % len(loops))
-    names = {"one_failed": "failed", "one_is_alive": "alive", "all_exited": "exited", "all_are_alive": "allAlive"}
+    names = {"one_failed": ".failed", "one_is_alive": ".alive", "all_exited": ".exited", "all_are_alive": ".allAlive"}
     defs = []
     for lp, tag in zip(loops, ("Main", "Left")):
         # while n_sentinels != len(processes):
@@ -768,22 +774,20 @@ def gen_collector():
         a_then, a_else = arm(iff.body), arm(iff.orelse)
         if not pos:
             a_then, a_else = a_else, a_then
-        defs.append("""/-- the `except queue.Empty` handler of the %s collector loop of `realign_gaf` as a decision over what `one_failed`,
-    `one_is_alive`, `all_exited`, `all_are_alive` answer -/
-def onEmpty%s (failed alive exited allAlive : Bool) : Act :=
-%s
+        label = {"Main": "in-loop", "Left": "leftover"}[tag]
+        defs.append("""/-- the `except queue.Empty` handler of the %s collector loop of `realign_gaf` as a decision program: one poll per call of
+    `one_failed` / `one_is_alive` / `all_exited` / `all_are_alive`, in source order -/
+def handler%s : Prog :=
+  %s
 
 /-- what the %s loop does with a received object: `isNone` = it is the sentinel -/
 def onObject%s (isNone : Bool) : Recv := if isNone then %s else %s
 
 /-- the %s loop goes on while ... (`n` = sentinels counted, `len` = number of processes) -/
-def loopOn%s (n len : Nat) : Bool := %s""" % ({"Main": "in-loop", "Left": "leftover"}[tag], tag, _handler_tree(tr.handlers[0].body, names, 2),
-                                             {"Main": "in-loop", "Left": "leftover"}[tag], tag, a_then, a_else,
-                                             {"Main": "in-loop", "Left": "leftover"}[tag], tag, op))
-    return ("/-! generated by harness/translate.py from gaftools/cli/realign.py : the collector protocol — do not edit -/\n"
-            "namespace Gaftools.Gen\n"
+def loopOn%s (n len : Nat) : Bool := %s""" % (label, tag, _handler_prog(tr.handlers[0].body, names), label, tag, a_then, a_else, label, tag, op))
+    return ("import Gaftools.Model.Realign\n/-! generated by harness/translate.py from gaftools/cli/realign.py : the collector protocol — do not edit -/\n"
+            "namespace Gaftools.Gen\nopen Gaftools.Realign\n"
             "/-- a process as the parent sees it: `(is_alive(), exitcode)` -/\nabbrev Proc := Bool × Option Int\n"
-            "inductive Act where\n  | exit1 | exit0 | cont | brk | fall\nderiving DecidableEq, Repr\n"
             "inductive Recv where\n  | count | keep | both | drop\nderiving DecidableEq, Repr\n\n"
             + "\n".join(preds[k] for k in ("allAreAlive", "oneIsAlive", "allExited", "oneFailed")) + "\n\n" + "\n\n".join(defs) + "\nend Gaftools.Gen\n")
 
@@ -1205,12 +1209,11 @@ def stableCoords (collapse rev strandPlus : Bool) (nodeStart total plen ps pe : 
   else (strandPlus, false, plen, ps, ps + pe - ps)
 end Gaftools.Gen
 """,
-    "Collector": """/-! FALLBACK (source construct outside the translator's subset): the collector protocol as modelled by hand -/
+    "Collector": """import Gaftools.Model.Realign
+/-! FALLBACK (source construct outside the translator's subset): the collector protocol as modelled by hand -/
 namespace Gaftools.Gen
+open Gaftools.Realign
 abbrev Proc := Bool × Option Int
-inductive Act where
-  | exit1 | exit0 | cont | brk | fall
-deriving DecidableEq, Repr
 inductive Recv where
   | count | keep | both | drop
 deriving DecidableEq, Repr
@@ -1220,12 +1223,10 @@ def oneIsAlive (ps : List Proc) : Bool := ps.foldr (fun p acc => (if p.1 then tr
 def allExited (ps : List Proc) : Bool := ps.foldr (fun p acc => (if (p.2 != some (0 : Int)) then false else acc)) true
 def oneFailed (ps : List Proc) : Bool := ps.foldr (fun p acc => (if (p.2.isSome && (p.2 != some (0 : Int))) then true else acc)) false
 
-def onEmptyMain (failed alive exited allAlive : Bool) : Act :=
-  if failed then .exit1 else if alive then .cont else if (!exited) then .exit1 else .cont
+def handlerMain : Prog := refHandler
 def onObjectMain (isNone : Bool) : Recv := if isNone then .count else .keep
 def loopOnMain (n len : Nat) : Bool := n != len
-def onEmptyLeft (failed alive exited allAlive : Bool) : Act :=
-  if failed then .exit1 else if alive then .cont else if (!exited) then .exit1 else .cont
+def handlerLeft : Prog := refHandler
 def onObjectLeft (isNone : Bool) : Recv := if isNone then .count else .keep
 def loopOnLeft (n len : Nat) : Bool := n != len
 end Gaftools.Gen
